@@ -335,9 +335,7 @@ func prepareQuery(pc []Term, goal Term) []string {
 			cands = append(cands, &sx{atom: k})
 		}
 	}
-	if len(cands) > 0 {
-		cands = append(cands, &sx{atom: "0"})
-	}
+	cands = append(cands, &sx{atom: "0"}, &sx{atom: "1"})
 	out := plain
 	for _, f := range facts {
 		s := f.String()
